@@ -454,7 +454,7 @@ func writeEvidence(spec *PropSpec, tier string, seed int64, sums []hsum, ex *sym
 	for _, s := range sums {
 		r := s.res
 		states += r.Paths
-		transitions += r.Forced + r.Decided
+		transitions += r.Forced + r.Decided + r.Choices
 		distinct += len(r.Distinct)
 		var labels []string
 		for l := range r.CoverSamples {
@@ -498,7 +498,7 @@ func writeEvidence(spec *PropSpec, tier string, seed int64, sums []hsum, ex *sym
 		solverTime += r.SolverTime.Seconds()
 		interpTime += r.InterpTime.Seconds()
 		hs = append(hs, map[string]interface{}{"harness": r.Name, "paths": r.Paths, "outcomes": r.Kinds, "ssa_steps": r.Steps,
-			"decisions_forked": r.Decided, "decisions_forced_by_solver": r.Forced, "distinct_outcome_signatures": len(r.Distinct),
+			"decisions_forked": r.Decided, "decisions_forced_by_solver": r.Forced, "nondeterministic_choices_taken": r.Choices, "distinct_outcome_signatures": len(r.Distinct),
 			"required_covers": s.spec.Covers, "covers_missing": s.missing, "wall_s": round2(r.Wall.Seconds()),
 			"path_budget_exhausted": r.PathBudget})
 	}
